@@ -479,7 +479,7 @@ RESTART = [
     T('is_conj', 'GenEigsBase::is_conj', G, mode='value', params={'v1': 'cplx', 'v2': 'cplx'}, ret_type='Bool'),
     T('hermNevAdj', 'HermEigsBase::nev_adjusted', H, mode='value', members={'m_nev': 'int', 'm_ncv': 'int', 'm_ritz_est': 'arr_sc'},
       member_order=['m_nev', 'm_ncv', 'm_ritz_est'], ret_type='Int'),
-    T('genNevPre', 'GenEigsBase::nev_adjusted', G, mode='state', state_out=['nev_new'], slice=drop_last(2),
+    T('genNevPre', 'GenEigsBase::nev_adjusted', G, mode='state', state_out=['@intlocal0'], slice=drop_last(2),     # the adjusted count, whatever the source calls it
       members={'m_nev': 'int', 'm_ncv': 'int', 'm_ritz_est': 'arr_cplx', 'm_ritz_val': 'arr_cplx'},
       member_order=['m_nev', 'm_ncv', 'm_ritz_est', 'm_ritz_val'], calls=CALLS, ret_type='Int'),
     T('genNevAdj', 'GenEigsBase::nev_adjusted', G, mode='value',
